@@ -57,7 +57,12 @@ def setup(ck):
 def generate(ck):
     rng = ck.rng
     n = 110 if ck.tier == "quick" else 8000
-    descs = []
+    descs = [
+        # rescaled profiles under a frac-face pressure that also RISES (rows whose minimum is not at the
+        # fracture), every row plotted: fixed so that the quick tier does not depend on the draw
+        {"kind": "profiles", "cls": "single", "nx": 10, "table": {"kind": "shipped", "name": "pvt_gas"}, "p_i": 8000.0, "p_f": 3000.0, "alpha_branch": False, "reused": False, "schedule": {"kind": "random-walk", "seed": 5, "n_steps": 4}, "sched_as": "ndarray", "grid": {"family": "quadratic", "nt": 40, "t_end": 3.0, "seed": 0}, "every": 1, "rescale": True, "decoy": False},
+        {"kind": "profiles", "cls": "single", "nx": 30, "table": {"kind": "shipped", "name": "haynesville"}, "p_i": 9000.0, "p_f": 2000.0, "alpha_branch": False, "reused": False, "schedule": {"kind": "random-walk", "seed": 11, "n_steps": 3}, "sched_as": "list", "grid": {"family": "uniform", "nt": 150, "t_end": 2.0, "seed": 0}, "every": 7, "rescale": True, "decoy": True},
+    ]
     for i in range(n):
         k = i % 8
         if k in (0, 1, 2):
